@@ -274,7 +274,7 @@ func lastLines(s string, n int) string {
 func (rs *routerSim) buildBatch() {
 	t0 := time.Now()
 	rs.bin = filepath.Join(rs.s.Dir, "bin", "batch")
-	out, err := run(rs.batchDir, nil, "go", "build", "-o", rs.bin, "./cmd/batch")
+	out, err := run(rs.batchDir, nil, "go", "build", "-trimpath", "-o", rs.bin, "./cmd/batch")
 	if err != nil {
 		// Generated code that does not compile is C09's subject, which this family does not claim. Projects
 		// whose routers do not compile are dropped (counted, printed); if that is most of the batch, or the
@@ -298,7 +298,7 @@ func (rs *routerSim) buildBatch() {
 		}
 		rs.projects = keep
 		fmt.Printf("routersim: NOTE: the routers gleece generated for %d project(s) do not compile and are left out: %v\n%s\n", len(bad), rs.uncompilable, clip(out, 1500))
-		out, err = run(rs.batchDir, nil, "go", "build", "-o", rs.bin, "./cmd/batch")
+		out, err = run(rs.batchDir, nil, "go", "build", "-trimpath", "-o", rs.bin, "./cmd/batch")
 		if err != nil {
 			harnessFail("the generated routers (or the harness) do not compile:\n%s", clip(out, 6000))
 		}
